@@ -121,4 +121,48 @@ theorem stop_schedules_once (s : State) (c c' : CId) (hs : sortedQ s.removeQ = t
     countIn (stopConsumer s c).removeQ c' = countIn s.removeQ c' + (if c' = c then 1 else 0) :=
   C10.countIn_tqAppend s.removeQ (s.now + s.unbonding) c c' hs
 
+/-- one iteration of BeginBlockRemoveConsumers -/
+def rmStep (s : State) (c : CId) : State :=
+  match deleteConsumerChain s c with | some s' => s' | none => s
+
+theorem beginBlockRemove_eq (s : State) :
+    beginBlockRemove s =
+      (tqConsume s.removeQ s.now 200).1.foldl rmStep { s with removeQ := (tqConsume s.removeQ s.now 200).2 } := rfl
+
+theorem delete_other (s s' : State) (c c' : CId) (h : deleteConsumerChain s c = some s') (hne : c' ≠ c) :
+    s'.get c' = s.get c' := by
+  unfold deleteConsumerChain at h
+  simp only at h
+  split at h
+  · cases h
+  · simp only [Option.some.injEq] at h
+    subst h
+    have : ∀ (t : State) (a : List (String × CId)) (b : List (String × CId)) (q : TimeQueue),
+        State.get { t with client2c := a, chan2c := b, infrQ := q } c' = t.get c' := fun _ _ _ _ => rfl
+    rw [this]
+    exact get_set_upd_other s c c' clearRecord C10.clearRecord_id hne
+
+theorem rmStep_other (s : State) (c c' : CId) (hne : c' ≠ c) : (rmStep s c).get c' = s.get c' := by
+  unfold rmStep
+  cases hd : deleteConsumerChain s c with
+  | none => rfl
+  | some s1 => exact delete_other s s1 c c' hd hne
+
+/-- the deletion loop touches only the consumers it took from the removal queue -/
+theorem rmLoop_not_mem (ids : List CId) (s : State) (c : CId) (h : ¬ c ∈ ids) :
+    (ids.foldl rmStep s).get c = s.get c := by
+  induction ids generalizing s with
+  | nil => rfl
+  | cons d rest ih =>
+    simp only [List.foldl_cons]
+    rw [ih _ (fun hm => h (List.mem_cons_of_mem _ hm))]
+    exact rmStep_other s d c (fun e => h (by rw [e]; exact List.mem_cons_self))
+
+/-- a consumer whose removal is not due in this block (or that has none scheduled) is left exactly
+    as it was by BeginBlock's removals: launched consumers are never deleted by somebody else's removal -/
+theorem beginBlockRemove_others (s : State) (c : CId) (h : ¬ c ∈ (tqConsume s.removeQ s.now 200).1) :
+    (beginBlockRemove s).get c = s.get c := by
+  rw [beginBlockRemove_eq, rmLoop_not_mem _ _ c h]
+  rfl
+
 end ICS.Props.C11
